@@ -49,12 +49,18 @@ for e in sorted(findings, key=lambda e: (e["property"], e["id"])):
 out.append("")
 
 out.append("## Appendix G — seeded changes and which checks catch them (generated from seeded/*/meta.json)\n")
-out.append("| id | breaks | site | needs to manifest | detected by | failing input found |\n|---|---|---|---|---|---|")
+out.append("`final` = the registered quick check of the property run against /repo ITSELF with the patch applied (git apply / ./check / git checkout), last pass of `tools_seeded.py`; `first` = at first confirmation, before any strengthening.\n")
+out.append("| id | breaks | site | needs to manifest | first confirmation: detected by | final pass (quick, /repo itself) |\n|---|---|---|---|---|---|")
 for d in sorted(glob.glob(os.path.join(ROOT, "seeded", "*", "meta.json"))):
     m = json.load(open(d))
     det = m.get("detected_by", {})
     det_s = "; ".join(f"{k}: {esc(v, 90)}" for k, v in det.items()) if isinstance(det, dict) else esc(det, 300)
-    out.append(f"| {m.get('id')} | {esc(m.get('breaks',''), 160)} | {esc(m.get('site',''), 110)} | {esc(m.get('needs_to_manifest',''), 200)} | {det_s} | {m.get('failing_input_found')} |")
+    fin_path = os.path.join(os.path.dirname(d), 'final.json')
+    fin = json.load(open(fin_path)) if os.path.exists(fin_path) else {}
+    fin_s = (f"{'DETECTED' if fin.get('detected') else 'missed'} at {fin.get('repo_head')}: {fin.get('violation_lines')} VIOLATION lines, {fin.get('with_failing_input')} with a failing input" if fin else 'not run')
+    first = m.get('detected_by_first_confirmation', det)
+    first_s = "; ".join(f"{k}: {esc(v, 90)}" for k, v in first.items()) if isinstance(first, dict) else esc(first, 300)
+    out.append(f"| {m.get('id')} | {esc(m.get('breaks',''), 160)} | {esc(m.get('site',''), 110)} | {esc(m.get('needs_to_manifest',''), 200)} | {first_s} | {fin_s} |")
 out.append("")
 
 text = "\n".join(out)
